@@ -77,6 +77,11 @@ func (tc *TarsClient) ReConnect() error {
 
 // Send sends the request to the server as []byte.
 func (tc *TarsClient) Send(req []byte) error {
+	return tc.SendContext(context.Background(), req)
+}
+
+// SendContext is Send that gives up waiting for room in the send queue when ctx is done.
+func (tc *TarsClient) SendContext(ctx context.Context, req []byte) error {
 	if err := tc.ReConnect(); err != nil {
 		return err
 	}
@@ -90,6 +95,8 @@ func (tc *TarsClient) Send(req []byte) error {
 	select {
 	case <-timerC:
 		return errors.New("tars client write timeout")
+	case <-ctx.Done():
+		return ctx.Err()
 	case tc.sendQueue <- sendMsg{req: req}:
 		return nil
 	}
